@@ -106,6 +106,13 @@ TEMPLATES = [
     T('iso NNh', 'h', lambda d, n, s: ymd(d) + ' %02dh' % d.hour, offset_ok=False, group='hms'),
     T('iso NNhNNmNN.fs', 'frac', lambda d, n, s: ymd(d) + ' %02dh%02dm%02d' % (d.hour, d.minute, d.second) + frac(d, n, '.') + 's',
       offset_ok=False, group='hms'),
+    # ... the last component without a label of its own (it belongs to the unit after the preceding label)
+    T('iso NNhNN', 'hm', lambda d, n, s: ymd(d) + ' %02dh%02d' % (d.hour, d.minute), offset_ok=False, group='hms'),
+    T('iso NNhNNmNN', 'hms', lambda d, n, s: ymd(d) + ' %02dh%02dm%02d' % (d.hour, d.minute, d.second), offset_ok=False, group='hms'),
+    T('Mon D Y NNhNN', 'hm', lambda d, n, s: '%s %d %04d %02dh%02d' % (MON[d.month - 1], d.day, d.year, d.hour, d.minute), offset_ok=False,
+      bare_year=True, group='hms'),
+    T('US m/d/Y NNhNNmNN', 'hms', lambda d, n, s: '%02d/%02d/%04d %02dh%02dm%02d' % (d.month, d.day, d.year, d.hour, d.minute, d.second),
+      flags={'dayfirst': False, 'yearfirst': False}, offset_ok=False, group='hms'),
     # ... with the time in front of a date that starts with a number (a number after an h/m/s label and a blank is a
     # date member unless it is the last token)
     T('NNhNNmNNs first D Mon Y', 'hms', lambda d, n, s: '%02dh%02dm%02ds %d %s %04d' % (d.hour, d.minute, d.second, d.day, MON[d.month - 1], d.year),
